@@ -19,7 +19,9 @@ def fr(x):
     return frac_str(Fraction(float(x)))
 
 
-def build_line(cfg, tr, stacked, assign_log, fit=False):
+def build_line(cfg, tr, stacked, assign_log, fit=False, series=None):
+    """fit=False: replayrun (labels per round); fit=True: replayfit (whole result); fit='front': replayfront (raw
+    `series` in, per-series padded label lists out — the model stacks, fits, splits and pads itself)."""
     rounds = tr.rounds()
     if not rounds or rounds[0][0]["phase"] != "stats":
         return None
@@ -62,6 +64,14 @@ def build_line(cfg, tr, stacked, assign_log, fit=False):
         # whole-result replay: log T, the BIC counting threshold (from the source) and the estimator flag
         head = (f"replayfit {T} {d} {K} {cfg['m']} {cfg['limit']} 1/2 {fr(nw)} {fr(np.log(T))} {fr(BIC_THRESHOLD)} "
                 f"{1 if cfg['biased'] else 0} ")
+    if fit == "front":
+        head = (f"replayfront {1 if cfg['joint'] else 0} 0 {cfg['W']} {K} {cfg['m']} {cfg['limit']} 1/2 {fr(nw)} {fr(np.log(T))} "
+                f"{fr(BIC_THRESHOLD)} {1 if cfg['biased'] else 0} {show_list(betas, fr)} "
+                + show_list([np.asarray(s_, dtype=float).tolist() for s_ in series],
+                            lambda s_: show_list(s_, lambda row: show_list(row, fr), ';'), '|')
+                + f" {show_list(init)} " + "@".join(blocks))
+        impl_labels = [[int(x) for x in evs[-1]["out"].point_labels] for evs in rounds]
+        return head, impl_labels, betas
     line = (head + f"{show_list(betas, fr)} "
             f"{show_list(stacked.tolist(), lambda row: show_list(row, fr), ';')} {show_list(init)} " + "@".join(blocks))
     impl_labels = [[int(x) for x in evs[-1]["out"].point_labels] for evs in rounds]
@@ -188,3 +198,49 @@ def whole_result_section(ctx, cfgs, fields, want):
     for (cfg, res, lab), mo in zip(fit_meta, ctx.driver.run(fit_lines)):
         verdict = compare_report(ctx, cfg, res, mo, lab, fields)
         ctx.count("whole_result_replay:" + verdict)
+
+
+def front_end_section(ctx, cfgs, want):
+    """complete front-end calls replayed in the composed front-end model (FrontEnd.single / FrontEnd.joint): raw series
+    in; the model stacks the windows, runs the whole fit on the recorded oracles, splits and pads; the per-series label
+    lists must be EXACTLY the lists the real front end returned (markers included)."""
+    lines, meta = [], []
+    for cfg in cfgs:
+        if len(lines) >= want:
+            break
+        if cfg.get("force_final") or cfg.get("beta_vector_seed") is not None or cfg.get("synthetic") or cfg.get("dtype"):
+            continue
+        if not all(k in cfg for k in ("lens", "W", "N", "K", "m", "limit", "biased", "joint")):
+            continue
+        npts = sum(l - cfg["W"] + 1 for l in cfg["lens"])
+        if npts * cfg["N"] * cfg["W"] > 1500:
+            continue
+        with tu.record_label_assignments() as assign_log:
+            res, tr, err, series = tu.execute(cfg)
+        if err is not None or tr is None or not tr.kernel_calls:
+            continue
+        from fast_ticc import data_preparation as dp
+        stacked = dp.stack_training_data_multiple_series(series, cfg["W"])
+        built = build_line(cfg, tr, stacked, list(assign_log), fit="front", series=series)
+        if built is None:
+            ctx.count("front_end_replay:not-replayable")
+            continue
+        lists = [[int(x) for x in l] for l in res.point_labels] if cfg["joint"] else [[int(x) for x in res.point_labels]]
+        lines.append(built[0])
+        meta.append((cfg, res, lists, built[1][-1]))
+    for (cfg, res, lists, last_labels), mo in zip(meta, ctx.driver.run(lines)):
+        parts = mo.split(" ")
+        if parts[0] != "ok" or len(parts) != 7:
+            ctx.violation("correspondence-break", f"front-end model failed ({mo[:60]}) on a call the implementation completed", cfg)
+            ctx.count("front_end_replay:break")
+            continue
+        mlists = [[int(x) for x in l.split(",")] if l != "-" else [] for l in parts[2].split(";")]
+        if [x for l in mlists for x in l if x >= 0] != last_labels:
+            ctx.count("front_end_replay:near-tie")     # a different, equally cheap labelling (judged by replayrun in C09)
+            continue
+        if mlists != lists:
+            ctx.violation("correspondence-break", "front-end model (stack, fit, split, pad) and the real front end return different "
+                          f"label lists: lengths {[len(l) for l in mlists]} vs {[len(l) for l in lists]}", cfg)
+            ctx.count("front_end_replay:break")
+            continue
+        ctx.count("front_end_replay:equal")
